@@ -130,6 +130,7 @@ pub fn gen(rng: &mut Rng, kind: &str, size: &str, profile: &str) -> Scenario {
             return sc;
         }
         "burst" => return gen_burst(rng, kind),
+        "adbudget" => return gen_adbudget(rng, kind),
         "creep" => return gen_creep(rng, kind, size),
         "hugepeak" => return gen_hugepeak(rng, kind),
         "zerocap" => {
@@ -584,6 +585,47 @@ fn gen_burst(rng: &mut Rng, kind: &str) -> Scenario {
         _ => "quiet",
     }
     .into();
+    if !stream && late > 0 && rng.pct(50) {
+        // a join that still waits for stragglers is cancelled with a whole batch of outputs parked
+        sc.tail = "drop".into();
+    }
+    sc
+}
+
+/// adapters: more futures in flight than the per-poll budget (61), all of them woken at once while upstream - which had
+/// answered Pending - has become ready again: the poll that stops at the budget and the polls that continue it must
+/// still ask upstream
+fn gen_adbudget(rng: &mut Rng, kind: &str) -> Scenario {
+    let mut sc = Scenario { kind: kind.into(), ..Default::default() };
+    let cap = rng.pick(&[64usize, 100, 130]);
+    sc.cap = cap;
+    let first = cap as u32 - 1 - rng.below(3) as u32;
+    let mut c = 0u32;
+    for _ in 0..first {
+        c += 1;
+        sc.up.push(UpStep { resp: "I".into(), c });
+    }
+    sc.up.push(UpStep { resp: "P".into(), c: 0 });
+    for _ in 0..4 {
+        c += 1;
+        sc.up.push(UpStep { resp: "I".into(), c });
+    }
+    sc.up.push(UpStep { resp: "E".into(), c: 0 });
+    sc.hint = "exact".into();
+    for id in 1..=c {
+        sc.scripts.insert(id, vec![Step { acts: vec![], resp: "P".into() }, Step { acts: vec![], resp: "P".into() }, Step { acts: vec![], resp: "R".into() }]);
+    }
+    for _ in 0..first / 61 + 2 {
+        sc.ops.push(Op::Poll { w: 1 });
+    }
+    for id in 1..=first {
+        sc.ops.push(Op::Wake { c: id, by_val: false });
+    }
+    sc.ops.push(Op::UpWake);
+    for _ in 0..4 {
+        sc.ops.push(Op::Poll { w: 1 });
+    }
+    sc.tail = "drain".into();
     sc
 }
 
